@@ -8,6 +8,10 @@ CLAIMS = {
   text="Coq theorems (Props/C02.v): for every well-formed scan shape of any size the modelled scanner includes exactly the denoted lines (C02_includes), is_last is sound (C02_is_last_sound), and for every matcher and every file the run loop offers exactly the denoted non-blank records and counts them (C02_run). The model is tied to /repo on every run by comparing the real Scanner and real CsvPath.collect() with the model evaluated by the Coq kernel on enumerated + random scan parts and files.",
   note="Trusted: Coq kernel, the hand model Scan/ScanModel.v + Run/RunLoop.v as far as the correspondence sample shows it equal to the code, the Python harness; PLY's LALR reduce order is modelled, not verified. No axioms (Print Assumptions: closed).",
   technique="Coq proof over hand-written Gallina model + kernel-evaluated differential correspondence with the implementation"),
+ "C04": dict(
+  text="Coq theorems (Props/C04.v): transport lemmas — a reflexive-transitive relation respected by every matcher call / component evaluation is respected by the whole run / line (C04_run_transport, C04_line_transport, for EVERY matcher and evaluator); instantiated on the control+validity fragment (fail, fail_and_stop, valid, failed, stop, skip, advance, last, push): after any run is_valid is False exactly when a fail executed (C04_exact) and never returns to True (C04_monotone); a fail right of a false '->' has no effect (C04_not_executed_when; after stop/skip: C13); valid()/failed() read the verdict at their position (C04_per_line); an error fails the run iff 'fail' (C04_error_fail); ResultsManager.is_valid = manifest all_valid = conjunction for members that read a record (C04_aggregate_partial; the other case is open finding D12 with witness C04_aggregate_unstarted_refuted). Tie: fragment csvpaths with fail in every position run on the real CsvPath vs the executable model (Coq-evaluated: lines, stacks incl. valid/failed probes, counters, is_valid); error runs under policies with/without fail; named-paths groups run with all six real methods, ResultsManager.is_valid / run manifest / member manifests vs the aggregate model.",
+  note="Trusted: Coq kernel; Match/Ctl.v, Mgr/Aggregate.v as far as correspondence shows; fail under onmatch look-ahead is outside the fragment (partial); fail_all belongs to C08's cross-path signals. Known open finding D12 listed in known_findings.json. No axioms.",
+  technique="Coq proof (relation transport through run loop and adjudication loop; exactness on an executable fragment) + kernel-evaluated correspondence on real CsvPath and CsvPaths runs"),
  "C05": dict(
   text="Coq theorem C05_outcome (Props/C05.v): for all 64 policies, all validation-mode settings and every prior state the model of ErrorHandler._handle_if yields exactly the conjunction of flags (raise -> exception after the other effects, collect -> one record with the line number, stop, fail, print), each flag being the csvpath's own validation-mode setting when present; C05_quiet_is_silent, C05_monotone (verdict/stop never revert, records only grow), C05_vote (a component with an error votes False without 'match'). Tie: the real ErrorHandler.handle_error is called for every policy x every validation-mode comment and compared with model and statement by the Coq kernel; real csvpaths with 6 kinds of error-provoking component (incl. the blank-final-record last() path) are run under every policy x 5 validation modes x offending-line sets and judged against the property's statement. C05_quiet_refuted is the witness of repaired defect D5.",
   note="Trusted: Coq kernel; Match/Errors.v as far as the handler correspondence shows it equal to error.py; the run-level expectations are the property's statement for the generated program shapes (harness); validation-mode 'match' is not asserted on. No axioms.",
